@@ -516,12 +516,12 @@ def eval_misc(case):
             probe = cls(fromstring='%s:x' % _first_type(cls))
             types = probe.lv.get_types(probe.category)
             for atype in types:
-                for val in ('v', 'a:b', '10', 'x y', '', 'é', ' v', 'v ', ' v w '):
+                for val in ('v', 'a:b', '10', 'x y', '', 'é', ' v', 'v ', ' v w ', 'first\nsecond', 'a\r\nb:c', '\nlead', 'tab\there'):
                     x = cls(atype=atype, aval=val)
                     text = x.get_as_string()
                     y = cls(fromstring=text)
                     if y.get_type() != atype or y.get_val() != val:
-                        bad(f'{case[1]}/field-lost' + ('/surrounding-blanks' if val != val.strip() else ''),
+                        bad(f'{case[1]}/field-lost' + ('/surrounding-blanks' if val != val.strip() and '\n' not in val else ''),
                             f'{atype}:{val!r} -> {text!r} -> {y.get_type()}:{y.get_val()!r}')
                     if y.get_as_string() != text or repr(y) != text:
                         bad(f'{case[1]}/not-canonical', f'{text!r}')
